@@ -18,12 +18,7 @@ def main():
         if not os.path.exists(path):
             na.append({"property_id": pid, "reason": PENDING_REASON})
             continue
-        src = open(path).read()
-        ns = {}
-        # read the static header constants without importing typedpy
-        for name in ("LEVEL_TEXT", "LEVEL_NOTE", "TECHNIQUE", "DESIGN_REF"):
-            pass
-        meta = json.loads(open(os.path.join(ROOT, "harness", "props", "meta.json")).read())[pid]
+        meta = json.loads(open(os.path.join(ROOT, "harness", "props", "meta", pid + ".json")).read())
         checks.append({
             "property_id": pid,
             "quick_cmd": f"./check {pid} --tier quick",
